@@ -56,6 +56,12 @@ instance (l : Bytes) : Decidable (WFLine l) := by unfold WFLine; infer_instance
 instance (b : Bytes) (p : Part) : Decidable (WFPart b p) := by unfold WFPart; infer_instance
 instance (b : Bytes) (ps : List Part) : Decidable (WFBody b ps) := by unfold WFBody; infer_instance
 
+/-- `body` divided at the given absolute positions (taken in order; a position that is not
+beyond the previous one gives an empty chunk, one beyond the end takes what is left) -/
+def cutAt (body : Bytes) (off : Nat) : List Nat → List Bytes
+  | [] => [body]
+  | p :: ps => body.take (p - off) :: cutAt (body.drop (p - off)) (max p off) ps
+
 /-- the sections of the parts that start (with the CRLF ending the delimiter line) at `off` -/
 def partMarkups (tlen : Nat) : Nat → List Part → List Markup
   | _, [] => []
